@@ -58,6 +58,7 @@ shrink = bc.shrink_hist
 KNOWN = {
     "alive:ptr-variant": "C05-ptr-variant-expiry",
     "alive:srv-targets": "C05-second-srv-target",
+    "again:srv-targets": "C05-second-srv-target",
     "dead:ptr-last-second": "C05-expiry-hidden-by-expiring-ptr",
     "dead:stopped-second-name": "C05-stop-browse-drops-shared-records",
 }
